@@ -179,19 +179,31 @@ NEG = st.integers(0, len(ENCODINGS) - 1).flatmap(
         st.just(e),
         st.lists(reply_strategy(ENCODINGS[e]), max_size=2),
         st.tuples(st.integers(0, 999), st.integers(0, 999), st.lists(line_strategy(ENCODINGS[e]), min_size=1, max_size=4),
-                  line_strategy(ENCODINGS[e])),
+                  line_strategy(ENCODINGS[e]), st.integers(0, 9)),
         st.lists(reply_strategy(ENCODINGS[e]), min_size=1, max_size=2),
         st.lists(st.integers(1, 12), max_size=30)))
 
 
 def check_negative(ctx, case):
-    e, before, (c1, c2, body, tail), after, cuts = case
+    e, before, (c1, c2, body, tail, where), after, cuts = case
     enc = ENCODINGS[e]
     if c1 == c2:
         c2 = (c2 + 1) % 1000
     lp = loop()
     norm_b, data_b = lp.run_until_complete(_encode(before, enc))
     norm_a, data_a = lp.run_until_complete(_encode(after, enc))
+    interior = where % 3 == 0 and len(body) >= 2
+    if interior:
+        # the foreign code sits on an interior continuation line; the reply then returns to its own code
+        pos = 1 + where % (len(body) - 1)
+        bad = "".join(f"{(c2 if i == pos else c1):03d}-{x}\r\n" for i, x in enumerate(body)) + f"{c1:03d} {tail}\r\n"
+        data = data_b + bad.encode(enc)
+        out = lp.run_until_complete(_decode(data, cuts, enc, len(norm_b) + 1))
+        ctx.count(case, True, sample=dict(encoding=enc, bad=bad, interior=True), classes=["neg_interior"])
+        k = len(norm_b)
+        if len(out) <= k or out[k][0] != "STATUS":
+            raise Violation("C06/negative/interior_foreign_code_not_rejected", dict(bad=bad, got=repr(out[k] if len(out) > k else None)))
+        return
     bad = "".join(f"{c1:03d}-{x}\r\n" for x in body) + f"{c2:03d} {tail}\r\n"
     data = data_b + bad.encode(enc) + data_a
     out = lp.run_until_complete(_decode(data, cuts, enc, len(norm_b) + 1 + len(norm_a)))
